@@ -4,6 +4,7 @@ PM = "frequenz.sdk.microgrid._power_managing"
 FS = "frequenz.sdk.timeseries.formula_engine._formula_steps"
 RS = "frequenz.sdk.timeseries._resampling"
 BPM = "frequenz.sdk.timeseries.battery_pool._metric_calculator"
+PDA = "frequenz.sdk.microgrid._power_distributing.power_distributing:PowerDistributingActor"
 BMGR = "frequenz.sdk.microgrid._power_distributing._component_managers._battery_manager:BatteryManager"
 ALGO = "frequenz.sdk.microgrid._power_distributing._distribution_algorithm._battery_distribution_algorithm"
 CSM = "frequenz.sdk.microgrid._power_distributing._component_status"
@@ -198,5 +199,25 @@ PROPS = {
                      "topology (batteries {1,2} behind inverter {11}; battery {3} behind {12,13}), complete data, every "
                      "subset of working batteries; the link between the two formulations of 'advertised' (spec functions "
                      "adv_* over InvBatPair data vs pool_adv over metrics data) is by reading, not machine-checked"],
+    ),
+    "C14": dict(
+        modules=["pd_actor"],
+        contracts=[f"{PDA}._process_request", f"{PDA}._handle_task_completion", f"{PDA}._run"],
+        lemmas=[],
+        bounded=[],
+        level="proof",
+        explanation="The actor's three pieces are verified as atomic steps (none of them awaits between reading and writing the "
+                    "two dicts): _process_request starts exactly one distribution and is only legal when none is in flight for "
+                    "the group - its precondition is an obligation at both call sites; _run parks a request iff the group is in "
+                    "flight and the parked one is always the latest (loop invariant with a ghost `last` map); "
+                    "_handle_task_completion starts the parked request at once, whether the finished task returned or "
+                    "raised, and never touches another group.",
+        assumptions=[EXTRACTION,
+                     "model: asyncio.create_task starts the coroutine and returns a task that is not done; the done-callback "
+                     "is invoked exactly once, after the task is done (library behaviour, assumed)",
+                     "two component groups (disjoint); the component manager is a scripted collaborator counting "
+                     "distribute_power calls; cancellation of a distribution task is outside the property's quantifier",
+                     "'eventually applied' is the safety fact 'parked request starts at completion' + the progress assumption "
+                     "that every distribution task finishes"],
     ),
 }
